@@ -12,12 +12,15 @@
 package store
 
 import (
+	"time"
+
 	"github.com/douban/gobeansdb/cmem"
 	"github.com/douban/gobeansdb/config"
 )
 
 var _ = config.MCConf
 var _ = cmem.DBRL
+var _ = time.Now // the ghost statement of Bucket.get is type-checked where time values are in scope
 
 // ---------- ghost views ----------
 
@@ -102,7 +105,9 @@ func noCollisionInfo(bkt *Bucket, kh uint64) bool { return !specCTHasHash(bkt.hi
 //@   props C01 C12 C13
 //@   ints bv
 //@   assumed lookup in hint buffers / hint files (verified pieces: HintBuffer.Get, hintFileIndex.get); no effect on views or counters
+//@   modifies ghostItemChunk
 //@   ensures it != nil ==> fresh(it) && it.Keyhash == keyhash && it.Key == key && 0 <= chunkID && chunkID < MAX_NUM_CHUNK
+//@   ensures it != nil ==> ghostItemChunk == chunkID      // ghost record of the chunk the index reported (step assertion of Bucket.get's collision branch)
 
 // AppendRecord: the record gets a fresh position in the log; accounting: a live record moves from
 // SetData to FlushData, TryCompress may change the SetData size by the capacity difference.
@@ -374,3 +379,29 @@ func SpecStoreOK(store *HStore) bool { return storeOK(store) }
 //@   ints bv
 //@   requires ki != nil && storeOK(store) && (ki.KeyIsPath ==> len(ki.StringKey) <= 16) && len(ki.Key) == len(ki.StringKey)
 //@   modifies *
+
+// ---------- C13: the collision branch of Bucket.get (variant contract, body only) ----------
+
+// step assertion: the record of the wanted key is read at the position the hint index reports for
+// that key — chunk from getItem's second result, offset from the item — not at the tree's slot,
+// which belongs to the other key of the group
+func lemmaCollidingRead(pos Position, hintit *HintItem) bool { return true }
+
+// chunk reported by the last hintMgr.getItem (ghost; set by an assumed clause of its contract, so
+// that the assertion does not depend on the name of a local variable of Bucket.get)
+var ghostItemChunk int
+
+//@ func lemmaCollidingRead
+//@   props C13
+//@   ints bv
+//@   requires hintit != nil && pos.ChunkID == ghostItemChunk && pos.Offset == hintit.Pos.Offset
+//@   ensures result0
+
+//@ func (bkt *Bucket) get variant collision
+//@   props C13
+//@   ints bv
+//@   nosafety
+//@   requires bktOK(bkt) && ki != nil && treePosOK(bkt.htree)
+//@   requires ctWF(bkt.hints.collisions) && ctPosOK(bkt.hints.collisions) && forallU64(func(h uint64) bool { return allocated(bkt.hints.collisions.Items[h]) })
+//@   modifies *
+//@   ghost after GetRecordByPos#2: lemmaCollidingRead(pos, hintit)
